@@ -129,11 +129,23 @@ func (e EffSite) Ctx() *tctx {
 	} else {
 		root = e.Site.Caller
 	}
+	return ctxOfChain(root, e.Chain)
+}
+
+func ctxOfChain(root *ssa.Function, chain []*Site) *tctx {
 	c := &tctx{fn: root}
-	for _, s := range e.Chain {
+	for _, s := range chain {
 		c = &tctx{parent: c, fn: s.Static, call: s.Common(), depth: c.depth}
 	}
 	return c
+}
+
+// OriginsOfStore traces the value of a store found below root, with the helpers' parameters on its chain bound to
+// the arguments passed down from root.
+func (t *Tracer) OriginsOfStore(root *ssa.Function, sb StoreBelow) *Origin {
+	st := &tstate{t: t, o: newOrigin(), seen: map[string]bool{}}
+	st.trace(sb.FS.Store.Val, nil, ctxOfChain(root, sb.Chain))
+	return st.o
 }
 
 // ToRoot rewrites a value of the function containing e.Site into the root function's terms: parameters of the helpers
